@@ -558,6 +558,21 @@ func (s *BlockListSpec) decode(content *hcl.BodyContent, blockLabels []blockLabe
 		}
 	}
 
+	for i, v := range elems {
+		if !v.Type().Equals(elems[0].Type()) {
+			// Unification can succeed with no-op conversions for types that
+			// still differ (e.g. maps of dynamically-typed values), which
+			// would make the collection constructor below panic.
+			diags = append(diags, &hcl.Diagnostic{
+				Severity: hcl.DiagError,
+				Summary:  fmt.Sprintf("Unconsistent argument types in %s blocks", s.TypeName),
+				Detail:   "Corresponding attributes in all blocks of this type must be the same.",
+				Subject:  &sourceRanges[i],
+			})
+			return cty.UnknownVal(s.impliedType().WithoutOptionalAttributesDeep()), diags
+		}
+	}
+
 	return cty.ListVal(elems), diags
 }
 
@@ -842,6 +857,21 @@ func (s *BlockSetSpec) decode(content *hcl.BodyContent, blockLabels []blockLabel
 				return cty.DynamicVal, diags
 			}
 			elems[i] = newV
+		}
+	}
+
+	for i, v := range elems {
+		if !v.Type().Equals(elems[0].Type()) {
+			// Unification can succeed with no-op conversions for types that
+			// still differ (e.g. maps of dynamically-typed values), which
+			// would make the collection constructor below panic.
+			diags = append(diags, &hcl.Diagnostic{
+				Severity: hcl.DiagError,
+				Summary:  fmt.Sprintf("Unconsistent argument types in %s blocks", s.TypeName),
+				Detail:   "Corresponding attributes in all blocks of this type must be the same.",
+				Subject:  &sourceRanges[i],
+			})
+			return cty.UnknownVal(s.impliedType().WithoutOptionalAttributesDeep()), diags
 		}
 	}
 
